@@ -110,7 +110,7 @@ def make_ops(rng, cfg, profile, tier):
             ops.append({'op': rng.choice(['ADD_COLUMN', 'ADD_COLUMN', 'DEFINE_VARIABLE']),
                         'a': [rng.randrange(8), rng.random() < 0.12], 'e': gen_expr(rng, rng.randrange(1, 4))})
         elif r < 0.38:
-            ops.append({'op': 'SCALE', 'a': [rng.randrange(64), rng.choice([2.0, -1.0, 0.5, 3.0, 0.0, 10.0])]})
+            ops.append({'op': 'SCALE', 'a': [rng.randrange(64), rng.choice([2.0, -1.0, 0.5, 3.0, 0.0, 10.0, 100, 1000, -250])]})
         elif r < 0.46:
             ops.append({'op': 'PANEL', 'a': [rng.random() < 0.85]})
         elif r < 0.56:
